@@ -574,6 +574,16 @@ def r4_r5(repo, chk, ref):
             vals = repo.const(si.mod, st.value)
             if at and vals is not Unknown:
                 lab[at[0][1]] = vals
+    if not lab:
+        # the two labels assigned by separate statements in each branch
+        part = {}
+        for nm in ("recv_label", "send_label"):
+            for st, t, v in si.assigns(chain=nm):
+                at = [a for a in si.lexical_guards(st, expand=False) if a[0] == "is_client"]
+                val = repo.const(si.mod, v)
+                if at and val is not Unknown:
+                    part.setdefault(at[0][1], {})[nm] = val
+        lab = {k: (d.get("recv_label"), d.get("send_label")) for k, d in part.items()}
     want_c = (ref["initial_labels"]["server"].encode(), ref["initial_labels"]["client"].encode())
     ok = lab.get(True) == want_c and lab.get(False) == want_c[::-1]
     chk.ob("R4", "setup_initial: a client receives with 'server in' and sends with 'client in' (and vice versa)", ok, f"{lab}", si.loc(si.node))
